@@ -40,6 +40,7 @@ def run(ctx, crate):
     # a finished bar updated under an exhausted limiter stores rows that were never painted; dropping it then makes the
     # next println erase that many log lines (seed C03c)
     D.rule_finished_draws_forced(ctx, crate)
+    D.rule_counted_newline_row_followed(ctx, crate)
 
 
 def rule_println_forced(ctx, crate, rule="R-PRINTLN-FORCED"):
